@@ -85,11 +85,15 @@ FunctorManager::Entry& FunctorManager::createOrReplace(const std::string& name, 
       /* back up current declaration */
       _backed.swap(e.functor);
       _backed_id = id;
+      if (_unit_open)
+        _unit_changes.push_back(_backed);
       return e;
     }
     ++id;
   }
   _declarations.emplace_back(Entry(FunctorPtr(new Functor())));
+  if (_unit_open)
+    _unit_changes.push_back(FunctorPtr());
   return _declarations.back();
 }
 
@@ -109,6 +113,30 @@ void FunctorManager::rollback()
     /* remove last created */
     _declarations.pop_back();
   }
+  if (_unit_open && !_unit_changes.empty())
+    _unit_changes.pop_back();
+}
+
+void FunctorManager::rollbackUnit()
+{
+  /* revert the declarations of the unit, last first */
+  while (!_unit_changes.empty())
+  {
+    FunctorPtr old;
+    old.swap(_unit_changes.back());
+    _unit_changes.pop_back();
+    if (old)
+    {
+      unsigned id = findDeclaration(old->name, old->params.size());
+      if (id != nid)
+        _declarations[id].functor.swap(old);
+    }
+    else if (!_declarations.empty())
+      _declarations.pop_back();
+  }
+  _backed.reset();
+  _backed_id = nid;
+  _unit_open = false;
 }
 
 FunctorManager::Env FunctorManager::createEnv(Context& caller, unsigned id, const std::vector<Expression*>& pvals)
